@@ -99,6 +99,23 @@ def strategy(tier):
     return st.one_of(_iface_case(tier), _iface_case(tier), _ops_case(tier))
 
 
+def enumerate_cases(tier):
+    """Every accepted (sde_type, noise_type, method, options, Levy mode) cell x every interface variant, on a
+    time-dependent SDE (so that an operator evaluated at the wrong time cannot hide)."""
+    import os
+    import random
+    seed = int(os.environ.get("VERIF_SEED", "1") or 1)
+    for idx, combo in enumerate(sdes.accepted_combos(include_grad_free=True, all_levy=False)):
+        rnd = random.Random(seed * 4001 + idx)
+        nt = combo["noise_type"]
+        spec = {"sde_type": combo["sde_type"], "noise_type": nt, "d": 2, "m": 1 if nt == "scalar" else 2, "batch": 2,
+                "hidden": 3, "seed": rnd.randrange(2 ** 31), "tdep": True, "fscale": 1.0, "gscale": 0.7,
+                "dtype": "float64"}
+        for variant in VARIANTS:
+            yield {"kind": "iface", "spec": spec, "combo": combo, "variant": variant, "entropy": rnd.randrange(2 ** 31 - 2),
+                   "time": {"t0": 0.2, "t1": 0.2 + 3 * 0.25, "dt": 0.25, "tdtype": "float64"}}
+
+
 def run_case(case):
     return _run_iface(case) if case["kind"] == "iface" else _run_ops(case)
 
